@@ -24,7 +24,9 @@ method (`_setup` + the body translated by `tools/py2inf.py`, `Generated/Inferenc
 2. `gen_estimate_answers_valid` (engine MD, parameters read in exp-space, `α = LogOf K`: the oracle is literally the generated
    `belief_propagation`, whose output cells are the plain values): every stored table is `total · marginal / Z` of ONE joint —
    that of the stored potentials (C01E `gen_exact_inference_end_to_end`) — hence nonnegative, summing to the total, and any
-   two tables agree on shared attributes.
+   two tables agree on shared attributes.  Its hypotheses on the RETURNED parameters (`PotsOK`, `Z ≠ 0`) are discharged in
+   `C10E.gen_estimate_answers_valid_closed` / `_nozeros` (cold or first call): `PotsOK` always; `Z > 0` when no structural
+   zero is declared; with declared zeros `Z ≠ 0` remains.
 
 NOT proved here (open): for RDA / IG the semantic half "`belief_propagation(mle w) = w` for the `w` these solvers form".  The
 pieces are in place — `E2EGen.rda_inv` / `ig_inv` transport any property `R` of marginal vectors that the oracle's answers
